@@ -13,6 +13,7 @@ for pid in ALL:
         "evidence_file": f"/verif/evidence/{pid}.json", "replay_cmd_template": "./check replay {path}", "engine": "lean-model",
         "level_claimed": {"category": "proof", "text": c["text"], "design_ref": f"DESIGN.md §5 {pid}"},
         "level_note": c["note"], "technique": "Lean 4 machine-checked proof: " + c["technique"]})
+m['notes']=m.get('notes','')
 m['not_applicable'] = [{"property_id": p, "reason": "not yet claimed: the correspondence for this property runs, its theorems are still being written in this session (the technique applies; see DESIGN.md §5)"} for p in ALL if p not in CLAIMS]
 for e in m['engines']:
     e['serves_properties'] = [p for p in ALL if p in CLAIMS]
